@@ -7,9 +7,9 @@ Import ListNotations.
 
 Section St.
 Variable N : Num.
-(* an interpolator cache entry: the key it was built with (branch, kind, fill-is-None); content is determined by
-   the data, so the key is all that can be observed (Iso/Purity.v) *)
-Record cache := mkCache { c_branch : string; c_kind : string; c_fill_none : bool }.
+(* an interpolator cache entry: the key it was built with (branch, kind, fill value) and the knots it holds *)
+Inductive fillv := FNone | FNum (v : N) | FPair (lo hi : N) | FExtrap.
+Record cache := mkCache { c_branch : option string; c_kind : option string; c_fill : fillv; c_x : list N; c_y : list N }.
 Record iso := mkIso {
   pressure_mode : option string; pressure_unit : option string;
   loading_basis : option string; loading_unit : option string;
@@ -52,6 +52,8 @@ Arguments set_pressure_mode {N}. Arguments set_pressure_unit {N}. Arguments set_
 Arguments set_material_basis {N}. Arguments set_material_unit {N}. Arguments set_temperature_unit {N}. Arguments set_raw_temperature {N}.
 Arguments set_col_p {N}. Arguments set_col_l {N}. Arguments set_l_interpolator {N}. Arguments set_p_interpolator {N}.
 Arguments conv_col {N}. Arguments mapM {N}.
+Arguments FNone {N}. Arguments FNum {N}. Arguments FPair {N}. Arguments FExtrap {N}.
+Arguments c_branch {N}. Arguments c_kind {N}. Arguments c_fill {N}. Arguments c_x {N}. Arguments c_y {N}.
 
 (* state-and-exception monad *)
 Inductive sres (St A : Type) := SOk (a : A) | SErr (e : exn) (s : St).
